@@ -53,6 +53,20 @@ func (r *Run) doCtlExtra(sc *plan.Script, op *plan.Op, rec *plan.Rec) bool {
 		r.cutBackups(op, rec)
 	case "ctl.heal_all":
 		r.healAll()
+	case "ctl.cut_link":
+		// RESP traffic between members M and Count is refused (Dur 0) or silently lost (Dur 1);
+		// memberlist traffic is unaffected, both stay members
+		st := simnet.LinkRefuse
+		if op.Dur == 1 {
+			st = simnet.LinkBlackhole
+		}
+		if op.M != op.Count && op.M < len(r.C.Members) && op.Count < len(r.C.Members) {
+			r.N.SetLink(cluster.NodeOfIdx(op.M), cluster.NodeOfIdx(op.Count), simnet.ClassRESP, st)
+			r.K.Count("fault.link_cut", 1)
+			rec.Info = "cut m" + itoa(op.M) + "-m" + itoa(op.Count)
+		} else {
+			rec.Err = "skipped"
+		}
 	case "ctl.members":
 		m := r.C.Members[op.M]
 		mem, err := m.EC.Members(context.Background())
